@@ -48,6 +48,98 @@ def cfg_with(beacon, index, data, extra=()):
     return beacon.BeaconConfig(blk)
 
 
+TYPES = {1: 1, 2: 1, 16: 1, 17: 1, 18: 1, 31: 1, 40: 2, 3: 2, 5: 1, 37: 2}
+
+
+def derived_event(beacon, cfg, extra=()):
+    """settings (index, value) in on-disk order -> the derived values BeaconConfig reports, as a trace event"""
+    recs = [tlv.short(i, v) if TYPES[i] == 1 else tlv.integer(i, v) for i, v in cfg] + list(extra)
+    blk = tlv.block(recs, patch_size=0) + b"\x00\x00" if recs else b"\x00\x00\x00\x00"
+    o = core.guarded(lambda: (lambda c: (c.killdate, c.protocol, c.port, c.is_trial))(beacon.BeaconConfig(blk)), seconds=10)
+    e = {"op": "derived", "cfg": [{"i": i, "v": v} for i, v in cfg if i in (1, 2, 16, 17, 18, 31, 40)], "r": "ok" if o[0] == "ok" else str(o[1])[:200],
+         "kill": [], "proto": "none", "port": -1, "trial": False}
+    if o[0] == "ok":
+        kd, proto, port, trial = o[1]
+        e.update(kill=L(kd.encode()) if isinstance(kd, str) else ([] if kd is None else [0]), proto="none" if proto is None else str(proto),
+                 port=-1 if port is None else int(port), trial=trial if isinstance(trial, bool) else str(trial))
+    return e
+
+
+def pairs_event(beacon, text: bytes, pad=256):
+    blk = tlv.block([tlv.short(1, 0), tlv.ptr(8, text, max(pad, len(text)))], patch_size=0) + b"\x00\x00"
+    o = core.guarded(lambda: (lambda c: (c.domain_uri_pairs, c.domains, c.uris))(beacon.BeaconConfig(blk)), seconds=10)
+    enc = lambda s: [0] if s is None else L(s.encode("latin-1"))  # noqa: E731
+    e = {"op": "pairs", "text": L(text), "r": "ok" if o[0] == "ok" else str(o[1])[:200], "pairs": [], "domains": [], "uris": []}
+    if o[0] == "ok":
+        pr, ds, us = o[1]
+        e.update(pairs=[[enc(a), enc(b_)] for a, b_ in pr], domains=[enc(x) for x in ds], uris=[enc(x) for x in us])
+    return e
+
+
+def derived_part(ctx, beacon, rng):
+    """Derived.tla / DerivedR / DerivedIO: kill date (both generations), protocol, port, trial flag, domain/URI pairs"""
+    q = ctx.quick
+
+    def viol(what, failed, detail):
+        ctx.violation(f"derived value {what} disagrees with DerivedR", {"op": "derived_value", "what": what, "failed": failed}, detail)
+
+    mc = "CONSTANTS\n BYNAME = %s\nSPECIFICATION Spec\nINVARIANT TypeOK\nINVARIANT ViewsAgree\nINVARIANT DerivedMatchesReference\nINVARIANT LegacyKillDateReported\nPROPERTY Terminates\nCHECK_DEADLOCK FALSE\n"
+    r = ctx.tlc("Derived", mc % "FALSE", name="derived-model", timeout=1200)
+    core.require_clean(r, "Derived (views and derived values)")
+    core.require_coverage(r, ["Load", "Derive"])
+    r0 = ctx.tlc("Derived", mc % "TRUE", name="derived-byname", coverage=False, timeout=1200)
+    if r0.ok:
+        raise core.MachineryError("Derived.tla accepts the by-name lookup of the shadowed legacy kill date fields (vacuous?)")
+    tab = core.tlc_table(ctx, "DerivedIO", "", name="derived-table", env={"TIER": ctx.tier}, timeout=2400)
+    rows = tab["cfg"] if not q else [row for k, row in enumerate(tab["cfg"]) if k % 4 == ctx.seed % 4 or (row["kill"] and not any(s["i"] == 40 and s["v"] for s in row["cfg"]))]
+    for row in rows:
+        e = derived_event(beacon, [(s["i"], s["v"]) for s in row["cfg"]])
+        ctx.evaluations += 1
+        want = {"r": "ok", "kill": row["kill"], "proto": row["proto"], "port": row["port"], "trial": row["trial"]}
+        got = {k: e[k] for k in want}
+        if got != want:
+            failed = sorted(k for k in want if got[k] != want[k])[0]
+            viol({"kill": "killdate", "proto": "protocol", "port": "port", "trial": "is_trial", "r": "exception"}[failed], failed,
+                 {"settings": row["cfg"], "got": {k: (B(v).decode("latin-1") if k == "kill" else v) for k, v in got.items()}, "expected": {k: (B(v).decode("latin-1") if k == "kill" else v) for k, v in want.items()}})
+        ctx.count_distinct(("derived-cfg", tuple((s["i"], s["v"]) for s in row["cfg"])))
+    for row in tab["pairs"]:
+        e = pairs_event(beacon, B(row["text"]), pad=rng.choice([0, 8, 256]))
+        ctx.evaluations += 1
+        for k in ("pairs", "domains", "uris"):
+            if e["r"] != "ok" or e[k] != row[k]:
+                viol("domain_uri_pairs" if k == "pairs" else k, k, {"text": row["text"], "got": str(e[k])[:300], "r": e["r"], "expected": str(row[k])[:300]})
+                break
+        ctx.count_distinct(("pairs", tuple(row["text"])))
+    ctx.traces += len(rows) + len(tab["pairs"])
+    ctx.sample({"derived_row": tab["cfg"][5000], "pairs_row": tab["pairs"][300]})
+
+    # code -> spec: random settings (any order, repeated indices, unrelated settings in between), judged by TLC
+    ev = []
+    for _ in range(150 if q else 6000):
+        cfg = []
+        for _i in range(rng.randrange(0, 7)):
+            i = rng.choice([1, 2, 16, 17, 18, 31, 40, 3, 5, 37])
+            v = {1: lambda: rng.choice([0, 1, 2, 4, 8, 16]), 2: lambda: rng.randrange(65536), 16: lambda: rng.choice([0, 1, 2, 1999, 2021, 65535, rng.randrange(65536)]),
+                 17: lambda: rng.choice([0, 1, 2, 12, rng.randrange(65536)]), 18: lambda: rng.choice([0, 1, 31, rng.randrange(65536)]), 31: lambda: rng.choice([0, 1]),
+                 40: lambda: rng.choice([0, 0, 20211231, 99999999, 1000000, 2147483647, rng.randrange(10**6, 2**31)]), 3: lambda: rng.randrange(2**31), 5: lambda: rng.randrange(100),
+                 37: lambda: rng.randrange(2**32)}[i]()
+            cfg.append((i, v))
+        ev.append(derived_event(beacon, cfg))
+        ctx.evaluations += 1
+    alpha = b"ab./,,\x00-_:\xe9"
+    for _ in range(150 if q else 6000):
+        text = bytes(rng.choice(alpha) for _i in range(rng.randrange(0, 30)))
+        ev.append(pairs_event(beacon, text, pad=rng.choice([0, 64, 256])))
+        ctx.evaluations += 1
+    canary = dict(derived_event(beacon, [(16, 2021), (17, 12), (18, 31)]), kill=L(b"2021-12-30"))
+    bad = core.tlc_judge(ctx, "DerivedIO", "", ev, name="derived-trace", env={"TIER": ctx.tier}, timeout=2400, canary=canary)
+    for i, failed in bad:
+        e = ev[i]
+        f = sorted(failed)[0]
+        viol({"kill": "killdate", "proto": "protocol", "port": "port", "trial": "is_trial", "ok": "exception", "pairs": "domain_uri_pairs"}.get(f, f), f,
+             {k: (v if not isinstance(v, list) or len(v) < 60 else f"<{len(v)} items>") for k, v in e.items()})
+
+
 def run(ctx):
     from dissect.cobaltstrike import beacon
 
@@ -206,6 +298,7 @@ CHECK_DEADLOCK FALSE
             if [x for x in o[1]] != groups + [x for x in o[1] if x not in groups]:
                 rest = [0]  # groups must come first
         ev.append({"op": "gate", "flags": flags, "r": "ok" if o[0] == "ok" else str(o[1]), "groups": groups, "rest": rest})
+    derived_part(ctx, beacon, rng)
     bad = core.tlc_judge(ctx, "StructuredIO", "", ev, env={"TIER": ctx.tier}, timeout=2400)
     for i, failed in bad:
         e = ev[i]
